@@ -75,6 +75,13 @@ def exhaustive_cases(ck, n, two_projects, sample=None):
     for kinds, edges in R.small_graphs(n):
         if sample is not None and ck.rng.random() >= sample:
             continue
+        if n == 3 and not two_projects:
+            # nodes 1 and 2 are interchangeable (node 0 is the requested one): keep one representative of each pair
+            sw = {0: 0, 1: 2, 2: 1}
+            k2 = (kinds[0], kinds[2], kinds[1])
+            e2 = sorted((sw[i], sw[j], e) for (i, j, e) in edges)
+            if (k2, e2) < (tuple(kinds), sorted(edges)):
+                continue
         cfg = R.graph_config(kinds, edges, two_projects)
         yield ('x%d_%d_%d' % (n, 1 if two_projects else 0, k), cfg, 'REQ', ['t0'],
                'exhaustive-%d%s' % (n, '-2proj' if two_projects else ''), 'json')
@@ -209,7 +216,7 @@ def run(ck):
     def stream():
         for i, (name, cfg, mode, args) in enumerate(corpus()):
             yield ('k%d' % i, cfg, mode, args, name, 'json')
-        yield from random_cases(ck, 2500 if quick else 30000)
+        yield from random_cases(ck, 2500 if quick else 20000)
         # exhaustive small scope (flagged): every digraph incl. self loops x kinds x edge kinds, node 0 requested
         yield from exhaustive_cases(ck, 1, False)
         yield from exhaustive_cases(ck, 2, False)
@@ -220,9 +227,9 @@ def run(ck):
         else:
             yield from exhaustive_cases(ck, 3, False)
             yield from all_digraph_cases(ck, 4)
-            yield from sampled_graph_cases(ck, 3, 20000, True)
-            yield from sampled_graph_cases(ck, 4, 30000, False)
-            yield from sampled_graph_cases(ck, 4, 10000, True)
+            yield from sampled_graph_cases(ck, 3, 10000, True)
+            yield from sampled_graph_cases(ck, 4, 15000, False)
+            yield from sampled_graph_cases(ck, 4, 5000, True)
     import time
     t0 = time.time()
     ncases, ndiff = R.run_stream(ck, stream(), 'graph', PROP_TEXT, 'C09')
@@ -230,7 +237,7 @@ def run(ck):
     ck.extra['exhaustive'] = ('EXHAUSTIVE: all digraphs (self loops included) x kind assignments x edge kinds (declared / `.output`), '
                               'node 0 requested, on <=2 nodes in one and in two mutually importing projects' +
                               ('; 3 and 4 nodes sampled' if quick else
-                               ' and on 3 nodes in one project (238 328 shapes); ALL 65 536 digraphs on 4 nodes with build '
+                               ' and on 3 nodes in one project (238 328 shapes, one representative per swap of the two non-requested nodes); ALL 65 536 digraphs on 4 nodes with build '
                                'targets and declared edges; 3 nodes in two projects and 4 nodes with mixed kinds sampled'))
     ck.extra['cases'] = ncases
     # the extracted runner against Coq's own evaluation (vm_compute) on sampled cases
